@@ -343,7 +343,13 @@ func (g *gen) rec(d int) string {
 	case 8:
 		return "(" + g.rec(d-1) + ")"
 	case 9:
-		return "(?:" + g.rec(d-1) + ")" + h.Pick(g.r, []string{"*", "+", "?", "{2}", "{0,2}", "{1,}", "{2,3}", "{0}"})
+		// no quantifier inside a quantified group: nested repeats of nullable alternations make the
+		// (unnormalised) derivatives of the reference matcher explode
+		inner := g.rec(d - 1)
+		if strings.ContainsAny(inner, "*+?{") {
+			inner = g.lit() + "|" + g.class() + g.lit()
+		}
+		return "(?:" + inner + ")" + h.Pick(g.r, []string{"*", "+", "?", "{2}", "{0,2}", "{1,}", "{2,3}", "{0}"})
 	case 10:
 		return g.lit() + h.Pick(g.r, []string{"*", "+", "?", "{2}", "{1,2}"})
 	default:
